@@ -447,7 +447,8 @@ func attrs() []*attr {
 	}
 	as = append(as, &attr{name: "binary", arg: "binary", gen: boolGen, bases: []string{"min", "rich", "text"}})
 	as = append(as, &attr{name: "sandbox", arg: "sandbox", gen: boolGen, bases: []string{"min", "rich", "text"}})
-	as = append(as, listAttr("output_dirs", "output_dirs", false, true, strA, strA2, 3, 4))
+	// output directories have their own syntax: a trailing /** declares every file below instead of the top-level entries
+	as = append(as, listAttr("output_dirs", "output_dirs", false, true, []string{"a", "a/**", "b", "b/**", "ab", "a/b"}, []string{"a", "a/**", "b", "b/**", "ab", "ab/**", "a/b", "a/b/**"}, 3, 4))
 	as = append(as, dictAttr("entry_points", "entry_points"))
 	as = append(as, &attr{name: "content", arg: "_file_content", gen: func(quick bool) []*val {
 		var out []*val
